@@ -16,12 +16,13 @@ type Script struct {
 	Interim      int // e.g. 103: send an interim response first (0 = none)
 	Status       int // 0 = do not call WriteHeader explicitly (implicit 200)
 	Header       []HeaderLine
-	Parts        [][]byte // body written part by part
-	FlushEach    bool     // Flush after every part
-	FlushFirst   bool     // Flush before the first write
-	DeclareLen   bool     // set Content-Length to the total size
-	NoReadBody   bool     // do not read the request body
-	WaitFlushAck chan int // lock-step streaming: after flushing part k, block until k is acknowledged
+	Parts        [][]byte      // body written part by part
+	FlushEach    bool          // Flush after every part
+	FlushFirst   bool          // Flush before the first write
+	HeadDelay    time.Duration // wait between the (flushed) head and the first body byte: a response that is slow to produce its body
+	DeclareLen   bool          // set Content-Length to the total size
+	NoReadBody   bool          // do not read the request body
+	WaitFlushAck chan int      // lock-step streaming: after flushing part k, block until k is acknowledged
 	Hijack       func(c net.Conn, rw *bufio.ReadWriter, r *http.Request)
 	Echo         []string      // request headers copied into the response
 	Delay        time.Duration // wait before answering (request is "waiting for backend headers")
@@ -241,6 +242,9 @@ func (b *Backend) serve(w http.ResponseWriter, r *http.Request) {
 	fl, _ := w.(http.Flusher)
 	if sc.FlushFirst && fl != nil {
 		fl.Flush()
+	}
+	if sc.HeadDelay > 0 {
+		time.Sleep(sc.HeadDelay)
 	}
 	for i, p := range sc.Parts {
 		if len(p) > 0 {
